@@ -255,7 +255,18 @@ def execute(case, mode, abort_at=None):
     if env.HOOKS is not None:
         env.HOOKS.set_callback(mon)
     Win = W.copy()
+    lay = case.get('layout')
+    if lay == 'F':
+        Win = np.asfortranarray(Win)  # column-major, as loaded from MATLAB files
+    elif lay == 'strided':
+        big = np.zeros((2 * len(W), 2 * len(W)), dtype=W.dtype)
+        big[::2, ::2] = W
+        Win = big[::2, ::2]  # non-contiguous view
     pin = {k: (v.copy() if isinstance(v, np.ndarray) else v) for k, v in p.items()}
+    if case.get('npscalars'):
+        for key in ('itr', 'maxswap'):
+            if isinstance(pin.get(key), int):
+                pin[key] = np.int64(pin[key])
     res = {'routine': routine, 'facts': {}, 'probes': {}, 'extra': {}}
     out = None
     exc = None
@@ -301,7 +312,7 @@ def execute(case, mode, abort_at=None):
     elif outcome == 'crash' and expect_reject:
         facts['C11'].append(('precondition_not_rejected', '%s raised %s instead of BCTParamError on %s input' % (routine, type(exc).__name__, expect_reject)))
     res.update(outcome=outcome, out=out, facts=facts, ndraws=rng.ndraws, forced=rng._st.forced, fired=rng.fired(),
-               trace=rng.trace(), digest=rng.digest(), states=mon.states, breach=mon.breach, swaps=mon.swaps,
+               trace=rng.trace(), digest=rng.digest(), tail_draws=rng.tail_draws(), states=mon.states, breach=mon.breach, swaps=mon.swaps,
                nontrivial=(mon.swaps > 0) if env.HOOKS is not None else (outcome == 'ok' and out is not None and rng.ndraws > 0))
     sites = rng.site_counts()
     pr = res['probes']
@@ -418,6 +429,13 @@ def gen_case(sub, routines, scn_id, connected=False, nmax=12, invalid_frac=0.0):
         budget = 4000 + 2000 * params['maxswap']
     case = {'scn': scn_id, 'routine': routine, 'W': enc(W), 'params': params, 'seed': sub, 'policy': pick_policy(rnd),
             'budget': budget, 'trace': None, 'meta': meta}
+    x = rnd.random()
+    if x < 0.08:
+        case['layout'] = 'F'
+    elif x < 0.12:
+        case['layout'] = 'strided'
+    if rnd.random() < 0.08:
+        case['npscalars'] = True
     if expect_reject:
         case['expect_reject'] = expect_reject
     return case
